@@ -1,3 +1,697 @@
-pub fn main(_cli: &mcx::Cli) {
-    mcx::machinery_failure("C41 not built yet");
+//! C41 — services start and stop cleanly under any interleaving.
+//!
+//! Real `ServiceRunner<MockService>` (real `initialize_loop`, `run`, `run_task`,
+//! `shutdown_task`, `start`/`stop`/`*_await`, `StateWatcher` helpers) on a
+//! single-threaded tokio runtime with paused clock. The explorer owns every source of
+//! scheduling: the spawned service task only runs inside `RunTask` / `Open` letters
+//! (until it blocks again), client futures are held un-spawned by the harness and polled
+//! one at a time by `Poll` letters (only when their waker fired), and every user hook of
+//! the mock (`into_task`, each `run`, `shutdown`) awaits a gate that the explorer opens
+//! with the outcome of its choice (continue / stop / error / panic).
+use fuel_core_services::{EmptyShared, RunnableService, RunnableTask, Service, ServiceRunner, State, StateWatcher, TaskNextAction};
+use mcx::*;
+use serde::{Deserialize, Serialize};
+use std::future::Future;
+use std::pin::Pin;
+use std::sync::atomic::{AtomicBool, Ordering};
+use std::sync::{Arc, Mutex};
+use std::task::{Context, Poll, Wake, Waker};
+
+// ---------------------------------------------------------------------------
+// gates + mock service
+// ---------------------------------------------------------------------------
+
+#[derive(Clone, Copy, Debug, PartialEq, Eq, Hash, PartialOrd, Ord, Serialize, Deserialize)]
+pub enum GateKind {
+    IntoTask,
+    Run,
+    Shutdown,
+}
+
+/// What the explorer lets a user hook do when it opens the hook's gate.
+#[derive(Clone, Copy, Debug, PartialEq, Eq, Hash, PartialOrd, Ord, Serialize, Deserialize)]
+pub enum Outcome {
+    /// into_task: Ok(task); run: Continue; shutdown: Ok(())
+    Fine,
+    /// run only: TaskNextAction::Stop
+    Stop,
+    /// run only: TaskNextAction::ErrorContinue
+    ErrorContinue,
+    /// into_task / shutdown: Err(..)
+    Err,
+    /// unwinding panic inside the hook
+    Panic,
+}
+
+#[derive(Default)]
+struct Hub {
+    waiting: Option<GateKind>,
+    waker: Option<Waker>,
+    released: Option<Outcome>,
+    /// (hook, state seen through the hook's own StateWatcher at entry; shutdown has none)
+    entries: Vec<(GateKind, Option<State>)>,
+    calls: [u32; 3],
+    gate_polls: u64,
+}
+
+type HubRef = Arc<Mutex<Hub>>;
+
+struct GateFut {
+    hub: HubRef,
+    kind: GateKind,
+}
+
+impl Future for GateFut {
+    type Output = Outcome;
+    fn poll(self: Pin<&mut Self>, cx: &mut Context<'_>) -> Poll<Outcome> {
+        let mut h = self.hub.lock().unwrap();
+        h.gate_polls += 1;
+        if let Some(o) = h.released.take() {
+            h.waiting = None;
+            h.waker = None;
+            Poll::Ready(o)
+        } else {
+            h.waiting = Some(self.kind);
+            h.waker = Some(cx.waker().clone());
+            Poll::Pending
+        }
+    }
+}
+
+fn enter(hub: &HubRef, kind: GateKind, seen: Option<State>) -> GateFut {
+    let mut h = hub.lock().unwrap();
+    h.entries.push((kind, seen));
+    h.calls[kind as usize] += 1;
+    GateFut { hub: hub.clone(), kind }
+}
+
+/// A panic that unwinds like `panic!` but does not go through the process panic hook.
+fn quiet_panic(msg: &str) -> ! {
+    std::panic::resume_unwind(Box::new(msg.to_string()))
+}
+
+pub struct MockService {
+    hub: HubRef,
+}
+pub struct MockTask {
+    hub: HubRef,
+}
+
+#[async_trait::async_trait]
+impl RunnableService for MockService {
+    const NAME: &'static str = "VerifMockService";
+    type SharedData = EmptyShared;
+    type Task = MockTask;
+    type TaskParams = ();
+
+    fn shared_data(&self) -> EmptyShared {
+        EmptyShared
+    }
+
+    async fn into_task(self, state_watcher: &StateWatcher, _params: ()) -> anyhow::Result<MockTask> {
+        let seen = state_watcher.borrow().clone();
+        match enter(&self.hub, GateKind::IntoTask, Some(seen)).await {
+            Outcome::Err => Err(anyhow::anyhow!("mock initialisation error")),
+            Outcome::Panic => quiet_panic("mock panic in into_task"),
+            _ => Ok(MockTask { hub: self.hub.clone() }),
+        }
+    }
+}
+
+impl RunnableTask for MockTask {
+    async fn run(&mut self, watcher: &mut StateWatcher) -> TaskNextAction {
+        let seen = watcher.borrow().clone();
+        match enter(&self.hub, GateKind::Run, Some(seen)).await {
+            Outcome::Stop => TaskNextAction::Stop,
+            Outcome::ErrorContinue | Outcome::Err => TaskNextAction::ErrorContinue(anyhow::anyhow!("mock run error")),
+            Outcome::Panic => quiet_panic("mock panic in run"),
+            Outcome::Fine => TaskNextAction::Continue,
+        }
+    }
+
+    async fn shutdown(self) -> anyhow::Result<()> {
+        match enter(&self.hub, GateKind::Shutdown, None).await {
+            Outcome::Err => Err(anyhow::anyhow!("mock shutdown error")),
+            Outcome::Panic => quiet_panic("mock panic in shutdown"),
+            _ => Ok(()),
+        }
+    }
+}
+
+// ---------------------------------------------------------------------------
+// clients
+// ---------------------------------------------------------------------------
+
+#[derive(Clone, Copy, Debug, PartialEq, Eq, Hash, PartialOrd, Ord, Serialize, Deserialize)]
+pub enum ClientKind {
+    StartAndAwait,
+    StopAndAwait,
+    AwaitStop,
+    AwaitStartOrStop,
+    /// a `StateWatcher` holder awaiting `while_started`
+    WhileStarted,
+    /// a `StateWatcher` holder awaiting `wait_stopping_or_stopped`
+    WaitStoppingOrStopped,
+}
+
+impl ClientKind {
+    fn borrows_runner(self) -> bool {
+        !matches!(self, ClientKind::WhileStarted | ClientKind::WaitStoppingOrStopped)
+    }
+}
+
+/// (returned Ok?, state carried by the result)
+type ClientOut = (bool, Option<State>);
+
+struct Flag(AtomicBool);
+impl Wake for Flag {
+    fn wake(self: Arc<Self>) {
+        self.0.store(true, Ordering::SeqCst);
+    }
+    fn wake_by_ref(self: &Arc<Self>) {
+        self.0.store(true, Ordering::SeqCst);
+    }
+}
+
+struct Client {
+    kind: ClientKind,
+    fut: Option<Pin<Box<dyn Future<Output = ClientOut>>>>,
+    flag: Arc<Flag>,
+    /// Some once resolved
+    done: Option<ClientOut>,
+    /// dropped together with the runner while pending
+    cancelled: bool,
+}
+
+type Runner = ServiceRunner<MockService>;
+
+fn client_future(kind: ClientKind, r: &Arc<Runner>) -> Pin<Box<dyn Future<Output = ClientOut>>> {
+    fn st(r: anyhow::Result<State>) -> ClientOut {
+        match r {
+            Ok(s) => (true, Some(s)),
+            Err(_) => (false, None),
+        }
+    }
+    match kind {
+        ClientKind::StartAndAwait => {
+            let r = r.clone();
+            Box::pin(async move { st(r.start_and_await().await) })
+        }
+        ClientKind::StopAndAwait => {
+            let r = r.clone();
+            Box::pin(async move { st(r.stop_and_await().await) })
+        }
+        ClientKind::AwaitStop => {
+            let r = r.clone();
+            Box::pin(async move { st(r.await_stop().await) })
+        }
+        ClientKind::AwaitStartOrStop => {
+            let r = r.clone();
+            Box::pin(async move { st(r.await_start_or_stop().await) })
+        }
+        ClientKind::WhileStarted => {
+            let mut w = r.state_watcher();
+            Box::pin(async move { st(w.while_started().await) })
+        }
+        ClientKind::WaitStoppingOrStopped => {
+            let mut w = r.state_watcher();
+            Box::pin(async move { (w.wait_stopping_or_stopped().await.is_ok(), None) })
+        }
+    }
+}
+
+// ---------------------------------------------------------------------------
+// letters
+// ---------------------------------------------------------------------------
+
+#[derive(Clone, Debug, PartialEq, Eq, Serialize, Deserialize)]
+pub enum Op {
+    /// let the runtime poll the spawned service task until it blocks again
+    RunTask,
+    /// `Service::start()`
+    Start,
+    /// `Service::stop()`
+    Stop,
+    /// create a client future and poll it once
+    Begin(ClientKind),
+    /// poll pending client #i once (its waker fired)
+    Poll(usize),
+    /// open the gate the service task is waiting at, then let the task run until it blocks again
+    Open(Outcome),
+    /// drop the `ServiceRunner` (and the pending client futures that borrow it)
+    DropRunner,
+    /// end of history: open every remaining gate with the benign outcome, poll every
+    /// woken client, then check that no await-for-stop is still pending
+    Drain,
+}
+
+// ---------------------------------------------------------------------------
+// world
+// ---------------------------------------------------------------------------
+
+fn rank(s: &State) -> u8 {
+    match s {
+        State::NotStarted => 0,
+        State::Starting => 1,
+        State::Started => 2,
+        State::Stopping => 3,
+        State::Stopped | State::StoppedWithError(_) => 4,
+    }
+}
+
+pub struct World {
+    // drop order matters: client futures, then the runner, then the runtime
+    clients: Vec<Client>,
+    runner: Option<Arc<Runner>>,
+    obs: StateWatcher,
+    hub: HubRef,
+    rt: tokio::runtime::Runtime,
+    task_polled: bool,
+    stop_requested: bool,
+    /// highest state observed so far (the observed sequence must never go below it)
+    high: State,
+    stopped_seen: bool,
+    released: Vec<(GateKind, Outcome)>,
+    drained: bool,
+}
+
+impl World {
+    fn new() -> World {
+        let rt = tokio::runtime::Builder::new_current_thread().enable_time().start_paused(true).build().expect("runtime");
+        let hub: HubRef = Arc::new(Mutex::new(Hub::default()));
+        let runner = {
+            let _g = rt.enter();
+            Arc::new(Runner::verif_new_unregistered(MockService { hub: hub.clone() }, ()))
+        };
+        let obs = runner.state_watcher();
+        World {
+            clients: vec![],
+            runner: Some(runner),
+            obs,
+            hub,
+            rt,
+            task_polled: false,
+            stop_requested: false,
+            high: State::NotStarted,
+            stopped_seen: false,
+            released: vec![],
+            drained: false,
+        }
+    }
+
+    fn state(&self) -> State {
+        let via_watcher = self.obs.borrow().clone();
+        if let Some(r) = &self.runner {
+            let s = r.state();
+            assert_eq!(s, via_watcher, "ServiceRunner::state and a StateWatcher disagree");
+        }
+        via_watcher
+    }
+
+    fn progress(&self) -> (u64, [u32; 3], State) {
+        let h = self.hub.lock().unwrap();
+        (h.gate_polls, h.calls, self.obs.borrow().clone())
+    }
+
+    /// Drive the runtime until the spawned service task is blocked again.
+    fn settle(&mut self) {
+        let turn = |rt: &tokio::runtime::Runtime| {
+            rt.block_on(async {
+                for _ in 0..3 {
+                    tokio::task::yield_now().await;
+                }
+            })
+        };
+        turn(&self.rt);
+        self.task_polled = true;
+        let p = self.progress();
+        turn(&self.rt);
+        if self.progress() != p {
+            // the task moved again without any input: not quiescent after a full turn
+            let mut last = self.progress();
+            for _ in 0..16 {
+                turn(&self.rt);
+                let now = self.progress();
+                if now == last {
+                    return;
+                }
+                last = now;
+            }
+            panic!("service task does not reach quiescence");
+        }
+    }
+
+    fn observe(&mut self, s: &State, at: &str) -> Result<(), Violation> {
+        if rank(s) < rank(&self.high) {
+            return Err(viol(
+                "c41-state-went-backwards",
+                format!("state observed {at} is {s:?} after {:?} had been observed; expected the state to only move forward", self.high),
+            ));
+        }
+        if rank(s) > rank(&self.high) {
+            self.high = s.clone();
+        }
+        Ok(())
+    }
+
+    /// Oracle over what the hooks recorded since the last call, then over the current state.
+    fn check_after(&mut self, at: &str) -> Result<String, Violation> {
+        let (entries, calls) = {
+            let mut h = self.hub.lock().unwrap();
+            (std::mem::take(&mut h.entries), h.calls)
+        };
+        let mut log = String::new();
+        for (kind, seen) in entries {
+            if kind != GateKind::Shutdown {
+                let stopped_now = seen.as_ref().map(|s| s.stopped()).unwrap_or(false);
+                if self.stopped_seen || stopped_now {
+                    return Err(viol(
+                        "c41-ran-after-stopped",
+                        format!("{kind:?} hook invoked (seeing {seen:?}) after the service had been observed stopped ({:?}); expected a stopped service never to run again", self.high),
+                    ));
+                }
+            }
+            if let Some(s) = &seen {
+                self.observe(s, &format!("inside the {kind:?} hook"))?;
+            }
+            log.push_str(&format!(" hook:{kind:?}@{}", seen.map(|s| format!("{s:?}")).unwrap_or_else(|| "-".into())));
+        }
+        if calls[GateKind::Shutdown as usize] > 1 {
+            return Err(viol("c41-shutdown-twice", format!("shutdown invoked {} times; expected at most once", calls[GateKind::Shutdown as usize])));
+        }
+        if calls[GateKind::IntoTask as usize] > 1 {
+            return Err(viol("c41-ran-after-stopped", format!("into_task invoked {} times", calls[GateKind::IntoTask as usize])));
+        }
+        let s = self.state();
+        self.observe(&s, at)?;
+        if s.stopped() {
+            self.stopped_seen = true;
+        }
+        log.push_str(&format!(" state={s:?}"));
+        Ok(log)
+    }
+
+    fn poll_client(&mut self, i: usize) -> Result<String, Violation> {
+        let c = &mut self.clients[i];
+        c.flag.0.store(false, Ordering::SeqCst);
+        let waker = Waker::from(c.flag.clone());
+        let mut cx = Context::from_waker(&waker);
+        let fut = c.fut.as_mut().expect("pending client has a future");
+        match fut.as_mut().poll(&mut cx) {
+            Poll::Pending => Ok(format!("{:?}#{i}:pending", c.kind)),
+            Poll::Ready(out) => {
+                c.fut = None;
+                c.done = Some(out.clone());
+                let kind = c.kind;
+                if let Some(s) = &out.1 {
+                    self.observe(s, &format!("as the result of {kind:?}"))?;
+                }
+                Ok(format!("{kind:?}#{i}:{}({})", if out.0 { "Ok" } else { "Err" }, out.1.map(|s| format!("{s:?}")).unwrap_or_default()))
+            }
+        }
+    }
+
+    fn open(&mut self, o: Outcome) -> GateKind {
+        let (kind, waker) = {
+            let mut h = self.hub.lock().unwrap();
+            let kind = h.waiting.expect("Open without a waiting gate");
+            h.released = Some(o);
+            (kind, h.waker.take())
+        };
+        if let Some(w) = waker {
+            w.wake();
+        }
+        self.released.push((kind, o));
+        kind
+    }
+
+    fn drain(&mut self) -> Result<String, Violation> {
+        self.drained = true;
+        let mut log = String::from("drain:");
+        let mut opened = 0;
+        loop {
+            self.settle();
+            log.push_str(&self.check_after("while draining")?);
+            let waiting = self.hub.lock().unwrap().waiting;
+            match waiting {
+                None => break,
+                Some(kind) => {
+                    if opened >= 6 {
+                        return Err(viol(
+                            "c41-service-keeps-running-after-stop",
+                            format!("stop was requested, yet after 6 benign gate releases the service task still waits in {kind:?} (state {:?}); expected it to wind down", self.state()),
+                        ));
+                    }
+                    opened += 1;
+                    self.open(Outcome::Fine);
+                    log.push_str(&format!(" open:{kind:?}"));
+                }
+            }
+        }
+        for _ in 0..8 {
+            let woken: Vec<usize> = (0..self.clients.len()).filter(|&i| self.clients[i].fut.is_some() && self.clients[i].flag.0.load(Ordering::SeqCst)).collect();
+            if woken.is_empty() {
+                break;
+            }
+            for i in woken {
+                let r = self.poll_client(i)?;
+                log.push_str(&format!(" {r}"));
+            }
+        }
+        let s = self.state();
+        for (i, c) in self.clients.iter().enumerate() {
+            if c.fut.is_some() && matches!(c.kind, ClientKind::StopAndAwait | ClientKind::AwaitStop) {
+                return Err(viol(
+                    "c41-await-stop-pending",
+                    format!("{:?} (client #{i}) is still pending although stop was requested, every gate was released and the service is quiescent in state {s:?}; expected every await for stop to return", c.kind),
+                ));
+            }
+        }
+        for (i, c) in self.clients.iter().enumerate() {
+            if c.fut.is_some() && c.kind == ClientKind::WaitStoppingOrStopped {
+                return Err(viol(
+                    "c41-wait-stopping-or-stopped-pending",
+                    format!("StateWatcher::wait_stopping_or_stopped (client #{i}) is still pending although stop was requested, every gate was released and the service is quiescent in state {s:?}; expected this await for stop to return"),
+                ));
+            }
+        }
+        Ok(log)
+    }
+}
+
+// ---------------------------------------------------------------------------
+// subject
+// ---------------------------------------------------------------------------
+
+pub struct Lifecycle {
+    pub max_clients: usize,
+    pub kinds: Vec<ClientKind>,
+    pub with_drop: bool,
+}
+
+impl Subject for Lifecycle {
+    type World = World;
+    type Op = Op;
+
+    fn name(&self) -> String {
+        format!("ServiceRunner<MockService> lifecycle [<= {} clients of {} kinds{}]", self.max_clients, self.kinds.len(), if self.with_drop { ", drop" } else { "" })
+    }
+
+    fn fresh(&self) -> World {
+        World::new()
+    }
+
+    fn enabled(&self, w: &World) -> Vec<Op> {
+        if w.drained {
+            return vec![];
+        }
+        let mut ops = vec![];
+        let s = w.state();
+        let waiting = w.hub.lock().unwrap().waiting;
+        // the task can only make a step of its own if it was never polled, or if it waits
+        // for the start signal and the state has changed since
+        let task_blocked = waiting.is_some() || s.stopped() || (w.task_polled && s.not_started());
+        if !task_blocked {
+            ops.push(Op::RunTask);
+        }
+        if let Some(kind) = waiting {
+            match kind {
+                GateKind::IntoTask => ops.extend([Outcome::Fine, Outcome::Err, Outcome::Panic].map(Op::Open)),
+                GateKind::Run => ops.extend([Outcome::Fine, Outcome::Stop, Outcome::ErrorContinue, Outcome::Panic].map(Op::Open)),
+                GateKind::Shutdown => ops.extend([Outcome::Fine, Outcome::Err, Outcome::Panic].map(Op::Open)),
+            }
+        }
+        for (i, c) in w.clients.iter().enumerate() {
+            if c.fut.is_some() && c.flag.0.load(Ordering::SeqCst) {
+                ops.push(Op::Poll(i));
+            }
+        }
+        if w.runner.is_some() {
+            ops.push(Op::Start);
+            ops.push(Op::Stop);
+            if w.clients.len() < self.max_clients {
+                ops.extend(self.kinds.iter().map(|k| Op::Begin(*k)));
+            }
+            if self.with_drop {
+                ops.push(Op::DropRunner);
+            }
+        }
+        if w.stop_requested {
+            ops.push(Op::Drain);
+        }
+        ops
+    }
+
+    fn step(&self, w: &mut World, op: &Op) -> Result<String, Violation> {
+        let mut out = String::new();
+        match op {
+            Op::RunTask => {
+                w.settle();
+                out.push_str("ran");
+            }
+            Op::Start => {
+                let r = w.runner.as_ref().expect("runner alive").start();
+                out.push_str(if r.is_ok() { "start:Ok" } else { "start:Err" });
+            }
+            Op::Stop => {
+                let r = w.runner.as_ref().expect("runner alive").stop();
+                w.stop_requested = true;
+                out.push_str(if r { "stop:true" } else { "stop:false" });
+            }
+            Op::Begin(kind) => {
+                let fut = client_future(*kind, w.runner.as_ref().expect("runner alive"));
+                w.clients.push(Client { kind: *kind, fut: Some(fut), flag: Arc::new(Flag(AtomicBool::new(false))), done: None, cancelled: false });
+                if *kind == ClientKind::StopAndAwait {
+                    w.stop_requested = true;
+                }
+                let i = w.clients.len() - 1;
+                out.push_str(&w.poll_client(i)?);
+            }
+            Op::Poll(i) => {
+                out.push_str(&w.poll_client(*i)?);
+            }
+            Op::Open(o) => {
+                let kind = w.open(*o);
+                w.settle();
+                out.push_str(&format!("opened:{kind:?}"));
+            }
+            Op::DropRunner => {
+                for c in w.clients.iter_mut() {
+                    if c.fut.is_some() && c.kind.borrows_runner() {
+                        c.fut = None;
+                        c.cancelled = true;
+                    }
+                }
+                let r = w.runner.take().expect("runner alive");
+                assert_eq!(Arc::strong_count(&r), 1, "client futures still borrow the runner");
+                drop(r);
+                w.stop_requested = true;
+                out.push_str("dropped");
+            }
+            Op::Drain => {
+                return w.drain();
+            }
+        }
+        out.push_str(&w.check_after(&format!("after {op:?}"))?);
+        Ok(out)
+    }
+
+    fn canon(&self, w: &World) -> Vec<u8> {
+        let h = w.hub.lock().unwrap();
+        let mut clients: Vec<String> = w
+            .clients
+            .iter()
+            .map(|c| {
+                let status = if c.fut.is_some() {
+                    if c.flag.0.load(Ordering::SeqCst) {
+                        "woken"
+                    } else {
+                        "pending"
+                    }
+                } else if c.cancelled {
+                    "cancelled"
+                } else {
+                    "done"
+                };
+                format!("{:?}:{status}", c.kind)
+            })
+            .collect();
+        clients.sort();
+        format!(
+            "{:?}|polled={}|wait={:?}|rel={:?}|calls={:?}|clients={:?}|runner={}|stopreq={}|high={:?}|stopped_seen={}|drained={}",
+            w.obs.borrow().clone(),
+            w.task_polled,
+            h.waiting,
+            w.released,
+            h.calls,
+            clients,
+            w.runner.is_some(),
+            w.stop_requested,
+            w.high,
+            w.stopped_seen,
+            w.drained
+        )
+        .into_bytes()
+    }
+
+    fn deviation(&self, op: &Op) -> u32 {
+        match op {
+            Op::Open(Outcome::Err | Outcome::Panic | Outcome::ErrorContinue) => 1,
+            _ => 0,
+        }
+    }
+
+    fn label(&self, op: &Op) -> String {
+        match op {
+            Op::Begin(k) => format!("Begin:{k:?}"),
+            Op::Open(o) => format!("Open:{o:?}"),
+            Op::Poll(_) => "Poll".into(),
+            other => format!("{other:?}"),
+        }
+    }
+
+    fn interesting(&self, op: &Op, obs: &str) -> bool {
+        // a client resolved, a hook ran, or the end-of-history obligations were checked
+        matches!(op, Op::Drain) || obs.contains(":Ok(") || obs.contains(":Err(") || obs.contains("hook:")
+    }
+
+    fn required_labels(&self) -> Vec<String> {
+        let mut v: Vec<String> = ["RunTask", "Start", "Stop", "Poll", "Drain", "Open:Fine", "Open:Stop", "Open:ErrorContinue", "Open:Err", "Open:Panic"].iter().map(|s| s.to_string()).collect();
+        v.extend(self.kinds.iter().map(|k| format!("Begin:{k:?}")));
+        if self.with_drop {
+            v.push("DropRunner".into());
+        }
+        v
+    }
+}
+
+// ---------------------------------------------------------------------------
+// entry
+// ---------------------------------------------------------------------------
+
+fn subjects(cli: &Cli) -> Vec<(Lifecycle, usize, u32)> {
+    use ClientKind::*;
+    let all = vec![StartAndAwait, StopAndAwait, AwaitStop, AwaitStartOrStop, WhileStarted, WaitStoppingOrStopped];
+    match cli.tier {
+        Tier::Quick => vec![(Lifecycle { max_clients: 3, kinds: all, with_drop: true }, 9, 2)],
+        Tier::Thorough => vec![(Lifecycle { max_clients: 3, kinds: all, with_drop: true }, 13, 3)],
+    }
+}
+
+pub fn main(cli: &Cli) {
+    let subs = subjects(cli);
+    if let Some(path) = &cli.replay {
+        let rf = load_replay(path);
+        // histories do not depend on the subject's bounds
+        replay_and_exit(&subs[0].0, &rf);
+    }
+    let mut run = Run::new(cli, "model_checking");
+    for (s, depth, devs) in &subs {
+        let b = Bounds::new(*depth, cli).deviations(*devs);
+        run.add(explore(s, &b));
+    }
+    run.assume("single-threaded tokio runtime with paused clock; interleavings are explored at await-point granularity (one poll of one future per letter), not inside a poll");
+    run.assume("the mock task's hooks only await their gate (they do not watch the state themselves); stop-awaits are checked at the end of a history after every remaining gate was released with the benign outcome");
+    run.assume("metrics of the run loop are not registered in the global registry (verif_new_unregistered); everything else is ServiceRunner::new_with_params");
+    run.finish();
 }
